@@ -131,7 +131,7 @@ def check(ctx):
     units += [("hist", k, f) for k in ("int", "str") for f in ("name", "column")]
     units += [("hist", "int", f, "recycle") for f in ("name", "column")]
     units += [("big", p) for p in range(4)]
-    units += [("extra", f) for f in ("skew", "args", "dupnames", "twice", "self", "expectstr")]
+    units += [("extra", f) for f in ("skew", "args", "dupnames", "twice", "self", "expectstr", "namesake", "dupkeys")]
     agg = hashseeds.run(ctx, "props.c10", units)
     agg.notes["bound"] = "see joinspace.plan_units"
     agg.notes["exhaustive"] = True
@@ -142,7 +142,7 @@ def coverage_goals(ctx, agg):
     return [k for k in ("join-agree-nontrivial", "full_join-agree-nontrivial", "hist-agree") if agg.outcomes.get(k, 0) < 100]
 
 
-_FAMILY_UNITS = {'skewed sizes': 'skew', 'caller-owned key lists': 'args', 'repeated column name': 'dupnames', 'two joins on the same table objects': 'twice', 'self-join': 'self', 'expect string built at run time': 'expectstr'}
+_FAMILY_UNITS = {'skewed sizes': 'skew', 'caller-owned key lists': 'args', 'repeated column name': 'dupnames', 'two joins on the same table objects': 'twice', 'self-join': 'self', 'expect string built at run time': 'expectstr', "key vector that carries a column's name": 'namesake', 'several different duplicated keys': 'dupkeys'}
 
 
 def replay(rec):
